@@ -197,30 +197,31 @@ func (r *Runtime) builtinJSON_stringify(call FunctionCall) Value {
 	if replacer != nil {
 		if isArray(replacer) {
 			length := toLength(replacer.self.getStr("length", nil))
-			seen := map[string]bool{}
+			// (names are compared and kept as strings of code units: a Go string cannot carry an unpaired surrogate)
+			seen := map[unistring.String]bool{}
 			propertyList := make([]Value, length)
 			length = 0
 			for index := range propertyList {
-				var name string
+				var name String
 				value := replacer.self.getIdx(valueInt(int64(index)), nil)
 				switch v := value.(type) {
 				case valueFloat, valueInt, String:
-					name = value.String()
+					name = value.toString()
 				case *Object:
 					switch v.self.className() {
 					case classNumber, classString:
-						name = value.String()
+						name = value.toString()
 					default:
 						continue
 					}
 				default:
 					continue
 				}
-				if seen[name] {
+				if seen[name.string()] {
 					continue
 				}
-				seen[name] = true
-				propertyList[length] = newStringValue(name)
+				seen[name.string()] = true
+				propertyList[length] = name
 				length += 1
 			}
 			ctx.propertyList = propertyList[0:length]
